@@ -406,9 +406,6 @@ Proof.
   rewrite Ec, Eu, Ev, Ep, Eq. reflexivity.
 Qed.
 
-Definition same_body (p p' : parser) : Prop :=
-  chunked p = chunked p' /\ get_body_stream p = get_body_stream p'.
-
 Lemma base_environ_same c p p' :
   reqline p = reqline p' -> get_body_stream p = get_body_stream p' -> base_environ c p = base_environ c p'.
 Proof.
@@ -448,25 +445,6 @@ Proof.
   intros l M. apply (maps_not_ignorable k l Hk M).
 Qed.
 
-Lemma two_requests_agree a c ds p p0 p1 hp h1 ds' p' p0' p1' hp' h1' fl lines lines' :
-  accepted_run a ds p p0 p1 hp -> accepted_head a p0 p1 hp fl lines h1 ->
-  accepted_run a ds' p' p0' p1' hp' -> accepted_head a p0' p1' hp' fl lines' h1' ->
-  kept_lines lines = kept_lines lines' -> same_body p p' ->
-  agree_off is_proxy_key (environ_of c p) (environ_of c p').
-Proof.
-  intros AR AH AR' AH' K [Bc Bb] k Hk.
-  pose proof (same_reqline _ _ _ _ _ _ _ _ _ _ _ _ _ _ _ _ AR AH AR' AH') as R.
-  rewrite (environ_lookup_full _ _ _ _ _ _ _ _ _ c k AR AH),
-          (environ_lookup_full _ _ _ _ _ _ _ _ _ c k AR' AH').
-  rewrite (base_environ_same c p p' R Bb).
-  destruct (beqb k k_waitress_client_disconnected); auto.
-  destruct (eget (base_environ c p') k); auto.
-  unfold header_part.
-  assert (V : version p = version p') by (unfold reqline in R; congruence).
-  rewrite V, Bc, Bb.
-  rewrite <- (key_lines_kept k lines Hk), <- (key_lines_kept k lines' Hk), K. reflexivity.
-Qed.
-
 (* ------------------------------------------------------------------ *)
 (* G. HTTP_HOST and the six proxy keys of one accepted request *)
 
@@ -486,6 +464,117 @@ Qed.
 
 Lemma host_lines_kept lines : filter host_line (kept_lines lines) = filter host_line lines.
 Proof. rewrite <- !key_lines_host. apply key_lines_kept. reflexivity. Qed.
+
+(* ------------------------------------------------------------------ *)
+(* I. the framing verdict (chunked or not) is a function of the version and of
+      the Transfer-Encoding lines -- so it is the same for two requests whose
+      kept lines agree *)
+
+Definition nonnil {A} (l : list A) : bool := match l with [] => false | _ => true end.
+
+Lemma stage_uri_chunked a p h1 cmd uri ver p' :
+  stage_uri a p h1 cmd uri ver = (p', PSOk) -> chunked p = false ->
+  version p' = ver /\
+  chunked p' = beqb ver s_1_1 && nonnil (te_encodings (hget_default h1 s_TRANSFER_ENCODING [])).
+Proof.
+  unfold stage_uri. intros H Hc.
+  destruct (split_uri uri) as [sc nl pa qu fr| | |]; try discriminate.
+  set (q0 := p <| request_uri := uri |> <| command := cmd |> <| version := ver |>
+               <| p_scheme := sc |> <| p_netloc := nl |> <| path := pa |>
+               <| query := qu |> <| fragment := fr |> <| url_scheme := adj_url_scheme a |>) in *.
+  set (conn := hget_default h1 s_CONNECTION []) in *.
+  set (q1a := if beqb ver s_1_0 && negb (beqb (lower_latin1 conn) s_keep_alive)
+              then q0 <| connection_close := true |> else q0) in *.
+  set (q1 := if negb (beqb ver s_1_1)
+                && (match hget h1 s_TRANSFER_ENCODING with Some _ => true | None => false end)
+             then q1a <| connection_close := true |> else q1a) in *.
+  assert (Q1 : chunked q1 = chunked p /\ reqline q1 = (cmd, ver, uri, pa, qu, adj_url_scheme a)).
+  { unfold q1, q1a. destruct (beqb ver s_1_0 && _); destruct (negb (beqb ver s_1_1) && _); cbn; auto. }
+  destruct Q1 as (C1 & R1).
+  cbv zeta in H.
+  destruct (beqb ver s_1_1) eqn:E11.
+  - destruct (stage_11 h1 conn q1) as [q2 [e|]] eqn:E2; [discriminate|].
+    apply stage_11_ok in E2. destruct E2 as (_ & R2 & _ & _ & Hte).
+    apply stage_cl_ok in H. destruct H as (_ & R3 & _ & C3 & _).
+    assert (RL : reqline p' = (cmd, ver, uri, pa, qu, adj_url_scheme a)) by congruence.
+    unfold reqline in RL. injection RL as _ Rv _ _ _ _. split; [exact Rv|].
+    rewrite C3. cbn [andb].
+    destruct Hte as [(Hnil & C2 & _)|(Hlen & C2 & _)].
+    + rewrite Hnil, C2, C1, Hc. reflexivity.
+    + rewrite C2. destruct (te_encodings _); [discriminate Hlen|reflexivity].
+  - apply stage_cl_ok in H. destruct H as (_ & R3 & _ & C3 & _).
+    assert (RL : reqline p' = (cmd, ver, uri, pa, qu, adj_url_scheme a)) by congruence.
+    unfold reqline in RL. injection RL as _ Rv _ _ _ _. split; [exact Rv|].
+    rewrite C3, C1, Hc. reflexivity.
+Qed.
+
+Lemma parse_header_chunked a p hp p' fl lines h1 :
+  parse_header a p hp = (p', PSOk) -> accepted_head a p p' hp fl lines h1 -> chunked p = false ->
+  chunked p' = beqb (version p') s_1_1 && nonnil (te_encodings (hget_default h1 s_TRANSFER_ENCODING [])).
+Proof.
+  intros H AH Hc. rewrite parse_header_stages in H.
+  destruct (ah_find _ _ _ _ _ _ _ AH) as (index & F & Efl & L).
+  rewrite F in H. cbv zeta in H. rewrite <- Efl in H.
+  rewrite (ah_no_crlf _ _ _ _ _ _ _ AH), L in H. 
+  change (headers (p <| first_line := fl |>)) with (headers p) in H.
+  rewrite (ah_lines _ _ _ _ _ _ _ AH) in H.
+  destruct (crack_first_line fl) as [[[cmd uri] ver]|]; [|discriminate].
+  destruct (beqb cmd [] && beqb uri [] && beqb ver []); [discriminate|].
+  apply stage_uri_chunked in H; [|exact Hc].
+  destruct H as [V C]. rewrite C, V. reflexivity.
+Qed.
+
+Definition te_of_lines (lines : list bytes) : bytes :=
+  match value_of_lines (key_lines c_HTTP_TRANSFER_ENCODING lines) with Some v => v | None => [] end.
+
+Lemma accepted_chunked a ds p p0 p1 hp fl lines h1 :
+  accepted_run a ds p p0 p1 hp -> accepted_head a p0 p1 hp fl lines h1 ->
+  chunked p = beqb (version p) s_1_1 && nonnil (te_encodings (te_of_lines lines)).
+Proof.
+  intros AR AH.
+  destruct (ar_fresh _ _ _ _ _ _ AR) as (Fh & _ & Fc & _).
+  rewrite (ar_chunked _ _ _ _ _ _ AR).
+  assert (V : version p = version p1).
+  { pose proof (ar_reqline _ _ _ _ _ _ AR) as R. unfold reqline in R. congruence. }
+  rewrite V, (parse_header_chunked _ _ _ _ _ _ _ (ar_parse _ _ _ _ _ _ AR) AH Fc).
+  f_equal. f_equal. f_equal.
+  pose proof (ah_lines _ _ _ _ _ _ _ AH) as AL. rewrite Fh in AL.
+  unfold hget_default. rewrite (add_header_lines_hget _ _ _ s_TRANSFER_ENCODING AL).
+  cbn [hget]. rewrite fold_append_joined.
+  unfold te_of_lines, value_of_lines.
+  rewrite <- field_values_key_lines.
+  rewrite (field_values_line_adds lines c_HTTP_TRANSFER_ENCODING s_TRANSFER_ENCODING) by reflexivity.
+  reflexivity.
+Qed.
+
+Lemma te_of_lines_kept lines : te_of_lines (kept_lines lines) = te_of_lines lines.
+Proof. unfold te_of_lines. rewrite key_lines_kept by reflexivity. reflexivity. Qed.
+
+(* the two requests carry the same body: wsgi.input yields the same bytes
+   (the framing verdict itself is derived: accepted_chunked) *)
+Definition same_body (p p' : parser) : Prop := get_body_stream p = get_body_stream p'.
+
+Lemma two_requests_agree a c ds p p0 p1 hp h1 ds' p' p0' p1' hp' h1' fl lines lines' :
+  accepted_run a ds p p0 p1 hp -> accepted_head a p0 p1 hp fl lines h1 ->
+  accepted_run a ds' p' p0' p1' hp' -> accepted_head a p0' p1' hp' fl lines' h1' ->
+  kept_lines lines = kept_lines lines' -> same_body p p' ->
+  agree_off is_proxy_key (environ_of c p) (environ_of c p').
+Proof.
+  intros AR AH AR' AH' K Bb k Hk. unfold same_body in Bb.
+  pose proof (same_reqline _ _ _ _ _ _ _ _ _ _ _ _ _ _ _ _ AR AH AR' AH') as R.
+  assert (V : version p = version p') by (unfold reqline in R; congruence).
+  assert (Bc : chunked p = chunked p').
+  { rewrite (accepted_chunked _ _ _ _ _ _ _ _ _ AR AH), (accepted_chunked _ _ _ _ _ _ _ _ _ AR' AH'), V.
+    rewrite <- (te_of_lines_kept lines), <- (te_of_lines_kept lines'), K. reflexivity. }
+  rewrite (environ_lookup_full _ _ _ _ _ _ _ _ _ c k AR AH),
+          (environ_lookup_full _ _ _ _ _ _ _ _ _ c k AR' AH').
+  rewrite (base_environ_same c p p' R Bb).
+  destruct (beqb k k_waitress_client_disconnected); auto.
+  destruct (eget (base_environ c p') k); auto.
+  unfold header_part.
+  rewrite V, Bc, Bb.
+  rewrite <- (key_lines_kept k lines Hk), <- (key_lines_kept k lines' Hk), K. reflexivity.
+Qed.
 
 (* ------------------------------------------------------------------ *)
 (* H. the theorems *)
@@ -705,4 +794,16 @@ Lemma c15_e2e_head_parts a ds p :
 Proof.
   intros H A. destruct (accepted_parts _ _ _ H A) as (fl & lines & p0 & p1 & hp & h1 & HP & AR & AH).
   exists hp, fl, lines. split; [exact (ar_head _ _ _ _ _ _ AR)|]. split; [exact (ah_find _ _ _ _ _ _ _ AH)|exact HP].
+Qed.
+
+(* the framing verdict of an accepted request, from its bytes *)
+Lemma c15_e2e_chunked a ds p fl lines :
+  feed_all a ds = Some p -> accepted p -> head_parts (concat ds) = Some (fl, lines) ->
+  chunked p = beqb (version p) s_1_1 && nonnil (te_encodings (te_of_lines lines)) /\
+  te_of_lines (kept_lines lines) = te_of_lines lines.
+Proof.
+  intros H A HP.
+  destruct (accepted_parts _ _ _ H A) as (fl0 & lines0 & p0 & p1 & hp & h1 & HP0 & AR & AH).
+  rewrite HP in HP0. injection HP0 as <- <-.
+  split; [eapply accepted_chunked; eauto|apply te_of_lines_kept].
 Qed.
